@@ -7,6 +7,9 @@
    [simplify1] : simplify(pass, pat) given the parse tree of pat ("" when score = 0).
    [simplify2] : the two-pass driver of VisitExpr, given the tree of the pattern and a function that
                  supplies the parse tree of pass 1's output (the third-party parser is an input).
+   Every routine takes [fx : bool]: true = the code after the seven "fix:" commits a464c9c..44c3358 of /repo
+   (what the tie compares with), false = the routine before them (kept as *_prefix definitions so that the
+   refutation lemmas remain true statements about the pre-fix simplifier).
    No proofs here. *)
 From GC Require Import Base Model_Regex.
 Local Open Scope string_scope.
@@ -56,8 +59,21 @@ Definition mem_s (x : string) (l : list string) : bool := mem x l.
 Definition removable_escapes : list string :=
   ["\&"; "\#"; "\!"; "\@"; "\%"; "\<"; "\>"; "\:"; "\;"; "\/"; "\,"; "\="; "\."].
 
-Definition bare_exclusions : list string :=
-  ["|"; "*"; "+"; "?"; "."; "["; "^"; "$"; "("; ")"].
+Definition bare_exclusions (fx : bool) : list string :=
+  ["|"; "*"; "+"; "?"; "."; "["; "^"; "$"; "("; ")"] ++ (if fx then ["{"; "}"; ","] else []).
+
+(* hasCapture *)
+Fixpoint hasCapture (e : sx) {struct e} : bool :=
+  match e with
+  | X o _ args =>
+      match o with OpCapture | OpNamedCapture => true | _ => false end
+      || (fix any (l : list sx) {struct l} : bool :=
+            match l with [] => false | x :: r => hasCapture x || any r end) args
+  end.
+
+(* hasClassMeta *)
+Definition hasClassMeta (e : sx) : bool :=
+  existsb (fun a => mem (sx_val a) ["-"; "]"; "["; "^"]) (sx_args e).
 
 Definition neg_class_table : list (string * string) :=
   [("[^0-9]", "\D"); ("[^\s]", "\S"); ("[^\S]", "\s"); ("[^\w]", "\W"); ("[^\W]", "\w");
@@ -78,25 +94,26 @@ Fixpoint lookup_s (k : string) (t : list (string * string)) : option string :=
 
 Definition simplifyNegCharClass (e : sx) : option string := lookup_s (sx_val e) neg_class_table.
 
-Definition simplifyCharClass (e : sx) : option string :=
+Definition simplifyCharClass (fx : bool) (e : sx) : option string :=
   match lookup_s (sx_val e) class_table with
   | Some r => Some r
   | None =>
       match sx_args e with
-      | [X OpChar v _] => if mem_s v bare_exclusions then None else Some v
+      | [X OpChar v _] => if mem_s v (bare_exclusions fx) then None else Some v
       | [X OpEscapeChar v _] => Some v
       | _ => None
       end
   end.
 
-Definition canMerge (x y : sx) : bool :=
+Definition canMerge (fx : bool) (x y : sx) : bool :=
   op_eqb (sx_op x) (sx_op y) &&
   match sx_op x with
-  | OpChar | OpCharClass | OpEscapeMeta | OpEscapeChar | OpNegCharClass | OpGroup => String.eqb (sx_val x) (sx_val y)
+  | OpChar | OpCharClass | OpEscapeMeta | OpEscapeChar | OpNegCharClass => String.eqb (sx_val x) (sx_val y)
+  | OpGroup => String.eqb (sx_val x) (sx_val y) && negb (fx && hasCapture x)
   | _ => false
   end.
 
-Definition canCombine (x y : sx) : option nat :=
+Definition canCombine (fx : bool) (x y : sx) : option nat :=
   if negb (op_eqb (sx_op x) (sx_op y)) then None else
   match sx_op x with
   | OpDot => Some 3%nat
@@ -104,17 +121,19 @@ Definition canCombine (x y : sx) : option nat :=
       if negb (String.eqb (sx_val x) (sx_val y)) then None
       else if String.eqb (sx_val x) " " then Some 1%nat else Some 4%nat
   | OpEscapeMeta | OpEscapeChar => if String.eqb (sx_val x) (sx_val y) then Some 2%nat else None
-  | OpCharClass | OpNegCharClass | OpGroup => if String.eqb (sx_val x) (sx_val y) then Some 1%nat else None
+  | OpCharClass | OpNegCharClass => if String.eqb (sx_val x) (sx_val y) then Some 1%nat else None
+  | OpGroup => if String.eqb (sx_val x) (sx_val y) && negb (fx && hasCapture x) then Some 1%nat else None
   | _ => None
   end.
 
 Definition allChars (e : sx) : bool := forallb (fun a => op_eqb (sx_op a) OpChar) (sx_args e).
 
-Definition concatLiteral (e : sx) : string :=
-  if op_eqb (sx_op e) OpConcat && allChars e then sx_val e else "".
+Definition concatLiteral (fx : bool) (e : sx) : string :=
+  if op_eqb (sx_op e) OpConcat && negb (fx && match sx_args e with [] => true | _ => false end) && allChars e
+  then sx_val e else "".
 
 (* simplifyCharRange: the replacement text, or None *)
-Definition simplifyCharRange (rng : sx) : option string :=
+Definition simplifyCharRange (fx : bool) (rng : sx) : option string :=
   match sx_args rng with
   | X OpChar lo _ :: X OpChar hi _ :: _ =>
       match lo, hi with
@@ -122,7 +141,8 @@ Definition simplifyCharRange (rng : sx) : option string :=
           let lb := N_of_ascii l in
           let hb := N_of_ascii h in
           let d := ((hb + 256 - lb) mod 256)%N in
-          if (d =? 0)%N then Some lo
+          if fx && ((lb =? 45)%N || (hb =? 45)%N || ((d =? 2)%N && ((lb + 1) mod 256 =? 45)%N)) then None
+          else if (d =? 0)%N then Some lo
           else if (d =? 1)%N then Some (lo ++ hi)
           else if (d =? 2)%N then Some (lo ++ string_of_byte ((lb + 1) mod 256)%N ++ hi)
           else None
@@ -132,11 +152,11 @@ Definition simplifyCharRange (rng : sx) : option string :=
   end.
 
 (* factorPrefixSuffix: Some text when it fires *)
-Definition factorPrefixSuffix (alt : sx) : option string :=
+Definition factorPrefixSuffix (fx : bool) (alt : sx) : option string :=
   match sx_args alt with
   | [a0; a1] =>
-      let x0 := concatLiteral a0 in
-      let y0 := concatLiteral a1 in
+      let x0 := concatLiteral fx a0 in
+      let y0 := concatLiteral fx a1 in
       if String.eqb x0 y0 then None else
       let '(x, y) := if Nat.ltb (String.length y0) (String.length x0) then (y0, x0) else (x0, y0) in
       let tail := trim_prefix y x in
@@ -149,25 +169,32 @@ Definition factorPrefixSuffix (alt : sx) : option string :=
   end.
 
 (* how many leading elements of l can be combined with x *)
-Fixpoint count_combinable (x : sx) (l : list sx) : nat :=
+Fixpoint count_combinable (fx : bool) (x : sx) (l : list sx) : nat :=
   match l with
   | [] => O
-  | y :: r => match canCombine x y with Some _ => S (count_combinable x r) | None => O end
+  | y :: r => match canCombine fx x y with Some _ => S (count_combinable fx x r) | None => O end
   end.
 
 (* decision taken in walkConcat after x has been written; `rest` is what follows x *)
 Inductive cstep := CNone | CMerge | CFold (n : nat).
-Definition concat_step (x : sx) (rest : list sx) : cstep :=
+Definition concat_step (fx : bool) (x : sx) (rest : list sx) : cstep :=
   match rest with
   | [] => CNone
   | y :: rest' =>
-      if op_eqb (sx_op y) OpStar && match sx_args y with y0 :: _ => canMerge x y0 | [] => false end then CMerge
-      else match canCombine x y with
+      if op_eqb (sx_op y) OpStar && match sx_args y with y0 :: _ => canMerge fx x y0 | [] => false end then CMerge
+      else match canCombine fx x y with
            | None => CNone
            | Some threshold =>
-               let n := S (count_combinable x rest') in
+               let n := S (count_combinable fx x rest') in
                if Nat.leb threshold n then CFold n else CNone
            end
+  end.
+
+(* NonGreedy over a repeat that is not printed ({0} or {1}) *)
+Definition dropped_repeat (x : sx) : bool :=
+  match x with
+  | X OpRepeat _ [_; r] => String.eqb (sx_val r) "{0}" || String.eqb (sx_val r) "{1}"
+  | _ => false
   end.
 
 (* ---------- walk: text and score ---------- *)
@@ -177,7 +204,7 @@ Definition o_app (a b : out) : out := (fst a ++ fst b, (snd a + snd b)%nat).
 Definition o_str (s : string) : out := (s, O).
 Definition o_hit (s : string) : out := (s, 1%nat).
 
-Fixpoint walk (e : sx) {struct e} : out :=
+Fixpoint walk (fx : bool) (e : sx) {struct e} : out :=
   match e with
   | X OpConcat _ args =>
       (fix wc (l : list sx) (skip : nat) {struct l} : out :=
@@ -187,44 +214,44 @@ Fixpoint walk (e : sx) {struct e} : out :=
              match skip with
              | S k => wc rest k
              | O =>
-                 match concat_step x rest with
-                 | CNone => o_app (walk x) (wc rest O)
-                 | CMerge => o_app (walk x) (o_app (o_hit "+") (wc rest 1%nat))
-                 | CFold n => o_app (walk x) (o_app (o_hit ("{" ++ itoa (S n) ++ "}")) (wc rest n))
+                 match concat_step fx x rest with
+                 | CNone => o_app (walk fx x) (wc rest O)
+                 | CMerge => o_app (walk fx x) (o_app (o_hit "+") (wc rest 1%nat))
+                 | CFold n => o_app (walk fx x) (o_app (o_hit ("{" ++ itoa (S n) ++ "}")) (wc rest n))
                  end
              end
          end) args O
   | X OpAlt _ args =>
-      if allChars e then
+      if allChars e && negb (fx && hasClassMeta e) then
         o_hit ("[" ++ String.concat "" (map sx_val args) ++ "]")
-      else match factorPrefixSuffix e with
+      else match factorPrefixSuffix fx e with
            | Some s => o_hit s
            | None =>
                (fix wa (l : list sx) {struct l} : out :=
                   match l with
                   | [] => o_str ""
-                  | [x] => walk x
-                  | x :: r => o_app (walk x) (o_app (o_str "|") (wa r))
+                  | [x] => walk fx x
+                  | x :: r => o_app (walk fx x) (o_app (o_str "|") (wa r))
                   end) args
            end
   | X OpCharRange v _ =>
-      match simplifyCharRange e with Some s => o_hit s | None => o_str v end
-  | X OpGroupWithFlags _ [x; fl] => o_app (o_str ("(" ++ sx_val fl ++ ":")) (o_app (walk x) (o_str ")"))
+      match simplifyCharRange fx e with Some s => o_hit s | None => o_str v end
+  | X OpGroupWithFlags _ [x; fl] => o_app (o_str ((if fx then "(?" else "(") ++ sx_val fl ++ ":")) (o_app (walk fx x) (o_str ")"))
   | X OpGroup _ [x] =>
       match sx_op x with
-      | OpChar | OpEscapeChar | OpEscapeMeta | OpCharClass => o_app (walk x) (o_hit "")
-      | _ => o_app (o_str "(?:") (o_app (walk x) (o_str ")"))
+      | OpChar | OpEscapeChar | OpEscapeMeta | OpCharClass => o_app (walk fx x) (o_hit "")
+      | _ => o_app (o_str "(?:") (o_app (walk fx x) (o_str ")"))
       end
-  | X OpCapture _ [x] => o_app (o_str "(") (o_app (walk x) (o_str ")"))
-  | X OpNamedCapture _ [x; nm] => o_app (o_str ("(?P<" ++ sx_val nm ++ ">")) (o_app (walk x) (o_str ")"))
+  | X OpCapture _ [x] => o_app (o_str "(") (o_app (walk fx x) (o_str ")"))
+  | X OpNamedCapture _ [x; nm] => o_app (o_str ("(?P<" ++ sx_val nm ++ ">")) (o_app (walk fx x) (o_str ")"))
   | X OpRepeat _ [x; r] =>
       let rep := sx_val r in
-      if String.eqb rep "{0,1}" then o_app (walk x) (o_hit "?")
-      else if String.eqb rep "{1,}" then o_app (walk x) (o_hit "+")
-      else if String.eqb rep "{0,}" then o_app (walk x) (o_hit "*")
-      else if String.eqb rep "{0}" then o_hit ""
-      else if String.eqb rep "{1}" then o_app (walk x) (o_hit "")
-      else o_app (walk x) (o_str rep)
+      if String.eqb rep "{0,1}" then o_app (walk fx x) (o_hit "?")
+      else if String.eqb rep "{1,}" then o_app (walk fx x) (o_hit "+")
+      else if String.eqb rep "{0,}" then o_app (walk fx x) (o_hit "*")
+      else if String.eqb rep "{0}" then (if fx && hasCapture x then o_app (walk fx x) (o_str rep) else o_hit "")
+      else if String.eqb rep "{1}" then o_app (walk fx x) (o_hit "")
+      else o_app (walk fx x) (o_str rep)
   | X OpPosixClass v _ => o_str v
   | X OpNegCharClass _ items =>
       match simplifyNegCharClass e with
@@ -232,41 +259,42 @@ Fixpoint walk (e : sx) {struct e} : out :=
       | None =>
           o_app (o_str "[^")
             (o_app ((fix wl (l : list sx) {struct l} : out :=
-                       match l with [] => o_str "" | x :: r => o_app (walk x) (wl r) end) items)
+                       match l with [] => o_str "" | x :: r => o_app (walk fx x) (wl r) end) items)
                    (o_str "]"))
       end
   | X OpCharClass _ items =>
-      match simplifyCharClass e with
+      match simplifyCharClass fx e with
       | Some s => o_hit s
       | None =>
           o_app (o_str "[")
             (o_app ((fix wl (l : list sx) {struct l} : out :=
-                       match l with [] => o_str "" | x :: r => o_app (walk x) (wl r) end) items)
+                       match l with [] => o_str "" | x :: r => o_app (walk fx x) (wl r) end) items)
                    (o_str "]"))
       end
   | X OpEscapeChar v _ =>
       if mem_s v removable_escapes then o_hit (drop 1 v) else o_str v
-  | X OpQuestion _ [x] | X OpNonGreedy _ [x] => o_app (walk x) (o_str "?")
-  | X OpStar _ [x] => o_app (walk x) (o_str "*")
-  | X OpPlus _ [x] => o_app (walk x) (o_str "+")
+  | X OpNonGreedy _ [x] => if fx && dropped_repeat x then walk fx x else o_app (walk fx x) (o_str "?")
+  | X OpQuestion _ [x] => o_app (walk fx x) (o_str "?")
+  | X OpStar _ [x] => o_app (walk fx x) (o_str "*")
+  | X OpPlus _ [x] => o_app (walk fx x) (o_str "+")
   | X _ v _ => o_str v
   end.
 
 (* simplify(pass, pat): "" when nothing was simplified *)
-Definition simplify1 (tree : sx) : string :=
-  let '(s, score) := walk tree in if Nat.ltb 0 score then s else "".
+Definition simplify1_g (fx : bool) (tree : sx) : string :=
+  let '(s, score) := walk fx tree in if Nat.ltb 0 score then s else "".
 
 (* VisitExpr for a pattern of at most 60 bytes whose first parse succeeded.
    tree2 = Some (parse tree of pass 1's output) or None when the parser rejects it.
    Result: Some rewrite (a warning is issued) or None. *)
-Definition simplify2 (pat : string) (tree1 : sx) (tree2 : string -> option sx) : option string :=
+Definition simplify2_g (fx : bool) (pat : string) (tree1 : sx) (tree2 : string -> option sx) : option string :=
   if Nat.ltb 60 (String.length pat) then None else
-  let c1 := simplify1 tree1 in
+  let c1 := simplify1_g fx tree1 in
   if String.eqb c1 "" then None else
   let final :=
     match tree2 c1 with
     | None => c1
-    | Some t2 => let c2 := simplify1 t2 in if String.eqb c2 "" then c1 else c2
+    | Some t2 => let c2 := simplify1_g fx t2 in if String.eqb c2 "" then c1 else c2
     end in
   if String.eqb final "" || String.eqb final pat then None else Some final.
 
@@ -336,7 +364,7 @@ Definition a_app (a b : aout) : aout := ((fst a ++ fst b)%list, (snd a + snd b)%
 Definition wrap1 (o : op) (suffix : string) (xs : list sx) : list sx :=
   let x := seq_node xs in [X o (print x ++ suffix) [x]].
 
-Fixpoint walk_a (e : sx) {struct e} : aout :=
+Fixpoint walk_a (fx : bool) (e : sx) {struct e} : aout :=
   match e with
   | X OpConcat _ args =>
       let r := (fix wc (l : list sx) (skip : nat) {struct l} : aout :=
@@ -346,13 +374,13 @@ Fixpoint walk_a (e : sx) {struct e} : aout :=
              match skip with
              | S k => wc rest k
              | O =>
-                 match concat_step x rest with
-                 | CNone => a_app (walk_a x) (wc rest O)
+                 match concat_step fx x rest with
+                 | CNone => a_app (walk_a fx x) (wc rest O)
                  | CMerge =>
-                     let '(xs, sc) := walk_a x in
+                     let '(xs, sc) := walk_a fx x in
                      a_app (wrap1 OpPlus "+" xs, S sc) (wc rest 1%nat)
                  | CFold n =>
-                     let '(xs, sc) := walk_a x in
+                     let '(xs, sc) := walk_a fx x in
                      let x' := seq_node xs in
                      let rep := "{" ++ itoa (S n) ++ "}" in
                      a_app ([X OpRepeat (print x' ++ rep) [x'; X OpString rep []]], S sc) (wc rest n)
@@ -361,15 +389,15 @@ Fixpoint walk_a (e : sx) {struct e} : aout :=
          end) args O in
       ([X OpConcat (pr_list (fst r)) (fst r)], snd r)
   | X OpAlt _ args =>
-      if allChars e then
+      if allChars e && negb (fx && hasClassMeta e) then
         ([X OpCharClass ("[" ++ String.concat "" (map sx_val args) ++ "]") (map (fun a => mk_char (sx_val a)) args)], 1%nat)
-      else match factorPrefixSuffix e with
+      else match factorPrefixSuffix fx e with
            | Some s =>
                (* x ++ tail ++ "?"  or  head ++ "?" ++ x : rebuilt from the two literals *)
                match args with
                | [a0; a1] =>
-                   let x0 := concatLiteral a0 in
-                   let y0 := concatLiteral a1 in
+                   let x0 := concatLiteral fx a0 in
+                   let y0 := concatLiteral fx a1 in
                    let '(x, y) := if Nat.ltb (String.length y0) (String.length x0) then (y0, x0) else (x0, y0) in
                    let tail := trim_prefix y x in
                    if Nat.leb (String.length tail) 4 && Nat.eqb (rune_count tail) 1 then
@@ -385,32 +413,33 @@ Fixpoint walk_a (e : sx) {struct e} : aout :=
                let r := (fix wa (l : list sx) {struct l} : list sx * nat :=
                   match l with
                   | [] => ([], O)
-                  | x :: r => let '(xs, sc) := walk_a x in
+                  | x :: r => let '(xs, sc) := walk_a fx x in
                               let '(rs, sc') := wa r in (seq_node xs :: rs, (sc + sc')%nat)
                   end) args in
                ([X OpAlt (String.concat "|" (map print (fst r))) (fst r)], snd r)
            end
   | X OpCharRange v _ =>
-      match simplifyCharRange e with Some s => (chars_of_bytes s, 1%nat) | None => ([e], O) end
+      match simplifyCharRange fx e with Some s => (chars_of_bytes s, 1%nat) | None => ([e], O) end
   | X OpGroupWithFlags v [x; fl] =>
       (* the checker writes "(" flags ":" ... ")" — without the "?" — which is a capturing group
          whose body starts with the flag letters and a colon as literal characters *)
-      let '(xs, sc) := walk_a x in
-      ([X OpCapture v [seq_node (chars_of (sx_val fl ++ ":") ++ xs)%list]], sc)
+      let '(xs, sc) := walk_a fx x in
+      if fx then ([X OpGroupWithFlags v [seq_node xs; fl]], sc)
+      else ([X OpCapture v [seq_node (chars_of (sx_val fl ++ ":") ++ xs)%list]], sc)
   | X OpGroup v [x] =>
       match sx_op x with
-      | OpChar | OpEscapeChar | OpEscapeMeta | OpCharClass => let '(xs, sc) := walk_a x in (xs, S sc)
-      | _ => let '(xs, sc) := walk_a x in ([X OpGroup v [seq_node xs]], sc)
+      | OpChar | OpEscapeChar | OpEscapeMeta | OpCharClass => let '(xs, sc) := walk_a fx x in (xs, S sc)
+      | _ => let '(xs, sc) := walk_a fx x in ([X OpGroup v [seq_node xs]], sc)
       end
-  | X OpCapture v [x] => let '(xs, sc) := walk_a x in ([X OpCapture v [seq_node xs]], sc)
-  | X OpNamedCapture v [x; nm] => let '(xs, sc) := walk_a x in ([X OpNamedCapture "(?P<" [seq_node xs; nm]], sc)
+  | X OpCapture v [x] => let '(xs, sc) := walk_a fx x in ([X OpCapture v [seq_node xs]], sc)
+  | X OpNamedCapture v [x; nm] => let '(xs, sc) := walk_a fx x in ([X OpNamedCapture "(?P<" [seq_node xs; nm]], sc)
   | X OpRepeat v [x; r] =>
       let rep := sx_val r in
-      let '(xs, sc) := walk_a x in
+      let '(xs, sc) := walk_a fx x in
       if String.eqb rep "{0,1}" then (wrap1 OpQuestion "?" xs, S sc)
       else if String.eqb rep "{1,}" then (wrap1 OpPlus "+" xs, S sc)
       else if String.eqb rep "{0,}" then (wrap1 OpStar "*" xs, S sc)
-      else if String.eqb rep "{0}" then ([], 1%nat)
+      else if String.eqb rep "{0}" then (if fx && hasCapture x then ([X OpRepeat v [seq_node xs; r]], sc) else ([], 1%nat))
       else if String.eqb rep "{1}" then (xs, S sc)
       else ([X OpRepeat v [seq_node xs; r]], sc)
   | X OpNegCharClass v items =>
@@ -418,11 +447,11 @@ Fixpoint walk_a (e : sx) {struct e} : aout :=
       | Some s => (table_tree s, 1%nat)
       | None =>
           let r := (fix wl (l : list sx) {struct l} : aout :=
-                      match l with [] => ([], O) | x :: r => a_app (walk_a x) (wl r) end) items in
+                      match l with [] => ([], O) | x :: r => a_app (walk_a fx x) (wl r) end) items in
           ([X OpNegCharClass v (fst r)], snd r)
       end
   | X OpCharClass v items =>
-      match simplifyCharClass e with
+      match simplifyCharClass fx e with
       | Some s =>
           match lookup_s v class_table with
           | Some _ => (table_tree s, 1%nat)
@@ -430,18 +459,28 @@ Fixpoint walk_a (e : sx) {struct e} : aout :=
           end
       | None =>
           let r := (fix wl (l : list sx) {struct l} : aout :=
-                      match l with [] => ([], O) | x :: r => a_app (walk_a x) (wl r) end) items in
+                      match l with [] => ([], O) | x :: r => a_app (walk_a fx x) (wl r) end) items in
           ([X OpCharClass v (fst r)], snd r)
       end
   | X OpEscapeChar v _ =>
       if mem_s v removable_escapes then ([mk_char (drop 1 v)], 1%nat) else ([e], O)
-  | X OpQuestion v [x] => let '(xs, sc) := walk_a x in (wrap1 OpQuestion "?" xs, sc)
-  | X OpNonGreedy v [x] => let '(xs, sc) := walk_a x in (wrap1 OpNonGreedy "?" xs, sc)
-  | X OpStar v [x] => let '(xs, sc) := walk_a x in (wrap1 OpStar "*" xs, sc)
-  | X OpPlus v [x] => let '(xs, sc) := walk_a x in (wrap1 OpPlus "+" xs, sc)
+  | X OpQuestion v [x] => let '(xs, sc) := walk_a fx x in (wrap1 OpQuestion "?" xs, sc)
+  | X OpNonGreedy v [x] =>
+      let '(xs, sc) := walk_a fx x in
+      if fx && dropped_repeat x then (xs, sc) else (wrap1 OpNonGreedy "?" xs, sc)
+  | X OpStar v [x] => let '(xs, sc) := walk_a fx x in (wrap1 OpStar "*" xs, sc)
+  | X OpPlus v [x] => let '(xs, sc) := walk_a fx x in (wrap1 OpPlus "+" xs, sc)
   | _ => ([e], O)
   end.
 
-Definition simp_ast (e : sx) : sx := seq_node (fst (walk_a e)).
-Definition simp_text (e : sx) : string := fst (walk e).
-Definition simp_score (e : sx) : nat := snd (walk e).
+(* the current code *)
+Definition simplify1 := simplify1_g true.
+Definition simplify2 := simplify2_g true.
+Definition simp_ast (e : sx) : sx := seq_node (fst (walk_a true e)).
+Definition simp_text (e : sx) : string := fst (walk true e).
+Definition simp_score (e : sx) : nat := snd (walk true e).
+
+(* the routine before the fix commits *)
+Definition simplify1_prefix := simplify1_g false.
+Definition simp_ast_prefix (e : sx) : sx := seq_node (fst (walk_a false e)).
+Definition simp_text_prefix (e : sx) : string := fst (walk false e).
